@@ -520,49 +520,6 @@ func (g *gen) all(emit func(stream, line string)) {
 		emit("idcall", fmt.Sprintf("idcall %s %d %d %d %d", hx.Hex(mem), win[g.r.Intn(len(win))], win[g.r.Intn(len(win))],
 			win[g.r.Intn(len(win))], win[g.r.Intn(len(win))]))
 	}
-	// 6d. jump-destination analysis WITH its caches: frames of one call tree sharing the map
-	for i := 0; i < 500*scale; i++ {
-		g.lowPush = i%2 == 0
-		nc := 2 + g.r.Intn(3)
-		codes := make([][]byte, nc)
-		var toks []string
-		for c := 0; c < nc; c++ {
-			codes[c] = g.jumpyBytes()
-			if c > 0 && g.r.Chance(1, 4) {
-				codes[c] = codes[g.r.Intn(c)] // same code again (a cache hit by hash)
-			}
-			label := "-" // hash-less init code
-			if g.r.Chance(2, 3) {
-				label = fmt.Sprintf("%02x", 1+c)
-				for k := 0; k < c; k++ {
-					if string(codes[k]) == string(codes[c]) {
-						label = fmt.Sprintf("%02x", 1+k)
-					}
-				}
-			}
-			toks = append(toks, fmt.Sprintf("c%d:%s:%s", c, hx.Hex(codes[c]), label))
-		}
-		for q := 0; q < 3+g.r.Intn(8); q++ {
-			c := g.r.Intn(nc)
-			var fives []int
-			for k, b := range codes[c] {
-				if b == JUMPDEST {
-					fives = append(fives, k)
-				}
-			}
-			d := g.r.Intn(len(codes[c]) + 2)
-			if len(fives) > 0 && g.r.Chance(9, 10) {
-				d = fives[g.r.Intn(len(fives))]
-			}
-			if g.r.Chance(1, 6) && q > 0 {
-				// a frame is re-created (a new call into the same code): fresh c.analysis, shared map kept
-				toks = append(toks, toks[c])
-			}
-			toks = append(toks, fmt.Sprintf("v%d:%s", c, hx.Hex(big.NewInt(int64(d)).Bytes())))
-		}
-		emit("jd", "jd "+strings.Join(toks, " "))
-	}
-	g.lowPush = false
 	// 7. the analysis alone
 	for i := 0; i < 400*scale; i++ {
 		code := g.jumpyBytes()
